@@ -77,7 +77,10 @@ CLAIMED["C04"] = dict(
          "the rule's parent class, end labels are the children's labels in order, the rule is what a pack strategy produces when "
          "re-applied, omitted children are truly empty and declared possibly empty; labels are a bijection (ClassDB clauses run on "
          "the same stream). "
-         "Search.tla now models inferral strategies (rotation / skip), symmetry expansion, strategy factories with foreign parents, several expansion sets, iterative packs and the forest database with or without reverse keys: the loops of about 300 recorded searches over 29 packs are validated step by step (Trace_SearchLoop) and every time-slicing of a sample of their universes is model-checked (MC_Search).",
+         "Search.tla now models inferral strategies (rotation / skip), symmetry expansion, strategy factories with foreign parents, several expansion sets, iterative packs and the forest database with or without reverse keys: the loops of about 300 recorded searches over 29 packs are validated step by step (Trace_SearchLoop) and every time-slicing of a sample of their universes is model-checked (MC_Search). "
+         "Universe G: seeded generated rule tables (any hypergraph of rules over 3-7 opaque classes, empty / verified classes anywhere, repeated children, "
+         "shifts of both signs, all flag combinations) are realised as real classes / strategies / packs, searched by the real searcher, and each "
+         "recorded loop is validated against Search.tla instantiated with the generated table itself (60 universes quick, 600 thorough; a sample model-checked for all slicings).",
     design_ref="DESIGN.md 3/C04",
     note="Trusted: TLC; the session recorder (wraps ruledb.add, _rules_from_strategy, ClassDB methods). The ClassDB model it rests "
          "on is model-checked under C15. Re-application of the strategy is executed by the harness and compared by TLC.",
@@ -90,7 +93,7 @@ CLAIMED["C14"] = dict(
          "existence). During real searches every rule given to the searcher's database is also fed to two lockstep shadows (default "
          "and memory-saving), and after every single insertion both are observed (stored keys, membership of stored and non-stored "
          "keys in any child order, is_verified of every label, has_specification, re-application of the strategy handed back for "
-         "each stored key). TLC judges with Trace_RuleDB.tla that both are behaviours of RuleDB.tla and agree with each other.",
+         "each stored key). TLC judges with Trace_RuleDB.tla that both are behaviours of RuleDB.tla and agree with each other. The campaign includes a pack with an involutive two-way expansion strategy (the same equivalence arrives in both directions).",
     design_ref="DESIGN.md 3/C14",
     note="Trusted: TLC, the lockstep harness. is_verified is compared between the flavours only (its exact value depends on when "
          "has_specification was last asked; both shadows see identical call sequences).",
@@ -198,7 +201,7 @@ CLAIMED["C19"] = dict(
          "together with SpecValid.tla and WordUniverse.tla judge expand_verified() on specifications with 1-6 strategy-verified "
          "classes (verified root, verified classes beside symmetry/inferral equivalences, factories, a verification pack that needs "
          "reverse rules), produced by each of the three rule databases under scripted time-slicings. "
-         "Also: nested verification packs (the offered pack itself verifies, with a pack-offering strategy, classes that only appear in the expansion) and originals that already contain a reverse rule while the verified class needs the reverse fallback.",
+         "Also: nested verification packs (the offered pack itself verifies, with a pack-offering strategy, classes that only appear in the expansion, or the very same class again so that it has to be expanded once per verification strategy) and originals that already contain a reverse rule while the verified class needs the reverse fallback.",
     design_ref="DESIGN.md 3/C19",
     note="Trusted: TLC; rule-object identity is read with id() while all original rules are kept alive. The inner forest searches "
          "are judged by their product only.",
@@ -235,7 +238,7 @@ CLAIMED["C18"] = dict(
          "and the key sets on all rule trees of depth <= 3. For every rule (nested ones included) of every campaign specification "
          "- plain, verification, equivalence, equivalence path, reverse - TLC checks that the projected emitted dictionary is "
          "Enc(form tree), has exactly the keys of its form, decodes to the same tree, that the reloaded rule has the same tree "
-         "and == holds; the reloaded specification equals the original and enumerates the ground truth; packs round-trip slot "
+         "and == holds; the reloaded specification equals the original and enumerates the ground truth, also when the round trip is made after the original was used for counting (verification strategies counting through a pack of their own included); packs round-trip slot "
          "by slot; strategy equality = same kind and settings for instances obtained directly, through a generic alias, by "
          "from_dict, copy, deepcopy and pickle (and inequality for different settings/kinds). Bijection round trips: C12. "
          "Bijections (also between specifications matching only up to unrolling a recursion) are dumped, reloaded and compared with the original on all objects up to size 5.",
